@@ -531,11 +531,12 @@ FleetCallsOf(line, g) ==
   [i \in 1..Len(cs) |-> [op |-> cs[i].op, ok |-> cs[i].ok, a |-> cs[i].a, b |-> cs[i].b, r |-> [k \in 1..Len(cs[i].r) |-> <<cs[i].r[k][1], cs[i].r[k][2]>>], s |-> cs[i].s]]
 LockTakenNow(pre, post, g) == post.groups[g].ctl.lockAt = pre.now /\ post.groups[g].ctl.isLocked /\ post.groups[g].accepted = pre.now
 C18v(line, pre, post) ==
-  UNION {IF ~pre.groups[g].cfg.fleet \/ FleetCallsOf(line, g) = <<>> THEN {} ELSE
+  \* (a process killed in the middle of a fleet scale-up is outside the statement: it is about failing steps, which the code survives)
+  UNION {IF ~pre.groups[g].cfg.fleet \/ FleetCallsOf(line, g) = <<>> \/ line.crash THEN {} ELSE
          {<<"C18", x, g, "">> : x \in C18bad([fleet |-> TRUE], FleetCallsOf(line, g), IF LockTakenNow(pre, post, g) THEN "nil" ELSE "error") \ {"success-reported-as-failure"}}
         : g \in Groups(pre)}
 C18f(line, pre, post) ==
-  UNION {IF ~pre.groups[g].cfg.fleet \/ FleetCallsOf(line, g) = <<>> THEN {} ELSE
+  UNION {IF ~pre.groups[g].cfg.fleet \/ FleetCallsOf(line, g) = <<>> \/ line.crash THEN {} ELSE
          (IF LockTakenNow(pre, post, g) THEN {"C18:ctl-fleet-accepted"} ELSE {"C18:ctl-fleet-failed-no-lock"})
         : g \in Groups(pre)}
 
